@@ -88,6 +88,7 @@ struct GenOpts {
   bool dup_keys = false;
   bool wild_strings = true;    // arbitrary bytes 0..255 in strings
   bool big_strings = false;    // occasionally 31/32/33/64/100+ byte strings
+  bool huge_strings = false;   // occasionally 4..70 KB strings (crosses pages, SimMem size classes, default chunk size)
   bool nonfinite = false;
   int key_alphabet = 6;        // small alphabet => hits and duplicates
 };
@@ -97,6 +98,10 @@ std::string gen_string(sim::Rng& r, const GenOpts& o);
 JVal gen_scalar(sim::Rng& r, const GenOpts& o);
 uint64_t gen_double_bits(sim::Rng& r, bool allow_nonfinite);
 
+// fast number formatting for canonical forms (snprintf dominated the profile)
+inline void put_u64(std::string& out, uint64_t v) { char b[24]; int i = 24; do { b[--i] = (char)('0' + v % 10); v /= 10; } while (v); out.append(b + i, (size_t)(24 - i)); }
+inline void put_i64(std::string& out, int64_t v) { if (v < 0) { out += '-'; put_u64(out, (uint64_t)0 - (uint64_t)v); } else put_u64(out, (uint64_t)v); }
+inline void put_hex16(std::string& out, uint64_t v) { static const char* d = "0123456789abcdef"; char b[16]; for (int i = 15; i >= 0; i--) { b[i] = d[v & 15]; v >>= 4; } out.append(b, 16); }
 std::string hex(const std::string& s);
 std::string unhex(const std::string& s);
 std::string printable(const std::string& s, size_t max = 200);
